@@ -767,7 +767,13 @@ func runImage(u unit, c *collector) {
 	w2 := openWAL(path, false)
 	defer closeWAL(w2)
 	if g := w2.Group(); g.MaxIndex()-g.MinIndex()+1 != len(files) {
-		fatal("group sees indexes %d..%d, directory has %d files", g.MinIndex(), g.MaxIndex(), len(files))
+		// an observation about the code under test, not a harness fault: after the clean stop the directory did
+		// not hold a file for every index of the group (e.g. no head file after a rotation); the image is reported
+		// and skipped
+		if first {
+			c.add([]viol{{"group:index-range-names-a-missing-file", fmt.Sprintf("after the history and a clean Stop the directory holds the %d file(s) %v, but a group opened on it works with indexes %d..%d: an index of the group (the head after a rotation) named no existing file until the reopen created it", len(files), names, g.MinIndex(), g.MaxIndex())}}, base, replay("none"))
+		}
+		return
 	}
 	eval := func(d damage, hs []uint64) []viol { return evalImage(w2, L, d, hs, c.st) }
 	if u.Replay {
